@@ -211,6 +211,7 @@ package syncer
 //@   requires retry_budget: s.c.StorageRetryCount >= 1 || s.c.StorageRetryForever
 //@   modifies *, s.lastSnapshotTime
 //@   at_call cleaner.(*Worker).SetCommitted#0 assert only_after_store: ghost_nstore == old(ghost_nstore) + 1
+//@   at_call logrus.FieldLogger.WithError#1 assert gives_up_only_without_retry_forever: !s.c.StorageRetryForever
 //@   at_call snapshot.(NameInfo).BuildName#0 assert name_carries_txn_time: s.hooks.UpdateSnapshotInfo == nil ==> arg0.Timestamp.wall == ghost_loc_nowWall && arg0.Timestamp.ext == ghost_loc_nowExt
 //@   loop 0 invariant not_stored: ghost_nstore == old(ghost_nstore)
 //@   loop 0 invariant inv: ghostInv()
@@ -305,6 +306,9 @@ package syncer
 // iterator writes the id of this transaction.
 //@ func (s *Syncer) LoadOnce$1
 //@   noswallow
+//@   loop 0 ghost loc_cancelled := 0
+//@   after_call utils.IsCanceled#0 ghost loc_cancelled := ite(ret0, 1, 0)
+//@   ensures cancellation_aborts_the_transaction: ghost_loc_cancelled == 1 ==> r0 != nil
 //@   loop 0 invariant not_failed: ghost_loc_failed == 0
 //@   at_call lmdb.(*Txn).OpenDBI#0 assert not_private: !hasPrefix(arg1, "_sync") && arg1 == dbiMsg.name
 //@   at_call lmdb.(*Txn).OpenDBI#0 assert create_rule: snap.FormatVersion >= 3 || dbiOpt.OverrideCreateFlags != nil
